@@ -168,3 +168,14 @@ add('C20',
     assumptions=['memory safety is observed by ASan red zones around exact-size heap buffers (inputs, option targets, positional arg_list of NL_ARGMAX entries, variadic slots) and UBSan; non-adjacent wild accesses into other live memory are not observable',
                  'widths/precisions above 100000 are exercised in a handful of cases only (they are an output-volume question, not a parsing one)'],
     )
+
+# ---------------------------------------------------------------------------------------------- C12
+add('C12',
+    level='exploration',
+    rule='guards: all admissible operation sequences of length 4 (5) over 22 guard operations on two guards / two instrumented mutexes for unique_lock and shared_lock, frg::guard(), QS lock_guard; spinlocks: bounded-preemption DFS over 2x2 and 3x1 lock/unlock scenarios + PCT/random schedules of 2-4 workers under the controlled scheduler (switches only at the atomic accesses), + free-running threads under ThreadSanitizer with a plain counter in the critical section',
+    jobs=[job('locks', 'c12_locks.cpp', shards={'quick': 8, 'thorough': 16}),
+          job('locks_tsan', 'c12_tsan.cpp', flavour='tsan', shards={'quick': 2, 'thorough': 4})],
+    min_evaluations={'quick': 50000, 'thorough': 500000},
+    min_counters={'guard_sequences': 10000, 'spin_schedules': 5000, 'dfs_spaces_exhausted': 4, 'qs_lock_guard_sequences': 64, 'tsan_lock_pairs': 100000},
+    assumptions=['the controlled scheduler explores sequentially consistent interleavings at the hook points; weak-memory effects are observable only as missing happens-before edges to ThreadSanitizer (plain data in the critical section)'],
+    )
